@@ -163,6 +163,14 @@ impl<'a> StateMachine<'a> {
                 }
             }
 
+            if matches!(self.state, State::MergeConflict(_, _))
+                && (self.line.starts_with("diff ")
+                    || self.line.starts_with("@@")
+                    || self.config.commit_regex.is_match(&self.line))
+            {
+                self.flush_unterminated_merge_conflict()?;
+            }
+
             if matches!(self.state, State::SubmoduleShort(_))
                 && !self.line.starts_with("+Subproject commit ")
             {
@@ -208,6 +216,7 @@ impl<'a> StateMachine<'a> {
             self.verif_trace_line("line");
         }
 
+        self.flush_unterminated_merge_conflict()?;
         self.emit_unpaired_submodule_short_line()?;
         self.emit_pending_hunk_header()?;
         self.handle_pending_line_with_diff_name()?;
